@@ -166,6 +166,9 @@ func runC04(c *Ctx) {
 	c.Borrow(runC17, "C17-R3", "C04-R2", func(k string) bool {
 		return strings.HasPrefix(k, "full-width-digest-compare") || strings.HasPrefix(k, "compare-after-successful-derivation")
 	})
+	// "after conversion to watching-only no call returns private material": the conversion of a running, unlocked manager
+	// always wipes what is in memory (C05-R3's rule)
+	c.Borrow(runC05, "C05-R3", "C04-R5", func(k string) bool { return k == "ConvertToWatchingOnly-reaches-lock" })
 	checkScriptSecrecyClassIsCallers(c, "C04-R1")
 
 	// ---------- R2 ----------
